@@ -137,7 +137,7 @@ def _split_case(case, d):
     w, rate, s = case["w"], case["rate"], case["s"]
     n = len(s)
     dur = n / rate
-    wavfn = os.path.join(d, "rec.wav")
+    wavfn = os.path.join(d, rng.choice(["rec.wav", "rec.wav", "rec.v2.wav", "a b.wav"]))
     _write_wav(wavfn, s, w, rate)
     # target tier: disjoint intervals on sample positions, unique labels
     cuts = sorted(rng.sample(range(0, n + 1), min(n + 1, 2 * rng.randint(1, 4))))
@@ -145,11 +145,12 @@ def _split_case(case, d):
         # boundaries a quarter of a sample off the sample positions (exact at the dyadic rates)
         cuts = sorted(set(min(max(c + rng.choice([0, 0.25, -0.25]), 0), n) for c in cuts))
     ents = []
+    dotted = rng.choice(["w", "w", "w.", "a.b-"])          # labels become parts of file names: a dot is not an extension
     for i in range(0, len(cuts) - 1, 2):
         if cuts[i] < cuts[i + 1]:
-            ents.append((cuts[i] / rate, cuts[i + 1] / rate, "w%d" % len(ents)))
+            ents.append((cuts[i] / rate, cuts[i + 1] / rate, dotted + "%d" % len(ents)))
     if not ents:
-        ents = [(0.0, dur, "w0")]
+        ents = [(0.0, dur, dotted + "0")]
     tg = Textgrid(0.0, dur)
     tg.addTier(IntervalTier("words", ents, 0.0, dur))
     # other tiers: with and without entries inside each interval
